@@ -191,6 +191,9 @@ type State struct {
 	splits int
 	depth  int
 	trail  []string
+	// impl: when the atom (key) becomes true, the listed atoms become false
+	// (used for "result is non-nil when the error is nil").
+	impl map[string][]string
 	// unsupported is set when the path met a construct outside the fragment.
 	unsupported string
 }
@@ -214,6 +217,12 @@ func (s *State) clone() *State {
 	}
 	for k, v := range s.env {
 		n.env[k] = v
+	}
+	if len(s.impl) > 0 {
+		n.impl = make(map[string][]string, len(s.impl))
+		for k, v := range s.impl {
+			n.impl[k] = v
+		}
 	}
 	n.events = append([]Event(nil), s.events...)
 	n.trail = append([]string(nil), s.trail...)
